@@ -290,7 +290,14 @@ package recordio
 //@   safety on
 
 //@ func (*FileReader).ReadNext
-//@   props C12 C04
+//@   props C12 C04 C07 C13
+//@   exit [C07,C13:payload-read-error-keeps-its-identity] called(io.ReadFull, 0) && callres(io.ReadFull, 0, 1) != nil ==>
+//@        r1 != nil && (errIs(callres(io.ReadFull, 0, 1), io.ErrUnexpectedEOF) ==> errIs(r1, io.ErrUnexpectedEOF)) &&
+//@        (errIs(callres(io.ReadFull, 0, 1), io.EOF) ==> errIs(r1, io.EOF))
+//@   exit [C07,C13:header-read-error-keeps-its-identity] called(readRecordHeaderV4, 0) && callres(readRecordHeaderV4, 0, 3) != nil &&
+//@        !errIs(callres(readRecordHeaderV4, 0, 3), MagicNumberMismatchErr) ==>
+//@        r1 != nil && (errIs(callres(readRecordHeaderV4, 0, 3), io.ErrUnexpectedEOF) ==> errIs(r1, io.ErrUnexpectedEOF)) &&
+//@        (errIs(callres(readRecordHeaderV4, 0, 3), io.EOF) ==> errIs(r1, io.EOF))
 //@   replay recordio_damage
 //@   requires r.file != nil && r.reader != nil && r.header != nil && r.recordHeaderByteReader != nil && r.bufferPool != nil
 //@   exit [C12:payload-completely-read] r1 == nil && !isnil(r0) && called(readRecordHeaderV4, 0) ==>
